@@ -6,6 +6,7 @@
      mutates, no mutable default argument;
 (iii) bounded confirmations: hash seeds 0..5 in separate processes; A, B, A in one process."""
 import ast
+import re
 import glob
 import json
 import os
@@ -240,8 +241,8 @@ def persistent_state():
     return guarded("state", run)
 
 
-PROG_A = '10 B(1)=1:A(1)=2:Z9(1)=3:Q$(1)="x":XY=1:XY$="s":PRINT STR$(B(1));HEX$(2)\n20 PLAY "C":HSCREEN 2:X=VAL("1")\n'
-PROG_B = '10 SOUND 1,2:HCOLOR 1:A$=STRING$(3,"x"):X=INSTR(1,A$,"x"):HDRAW "U1"\n'
+PROG_A = '10 B(1)=1:A(1)=2:Z9(1)=3:Q$(1)="x":XY=1:XY$="s":PRINT STR$(B(1));HEX$(2)\n20 PLAY "C":HSCREEN 2:X=VAL("1")\n30 INPUT "n";N:LINE INPUT L$:READ R:DATA 1\n40 HCIRCLE(1,2),3:HLINE(1,2)-(3,4),PSET:WIDTH 40\n'
+PROG_B = '10 SOUND 1,2:HCOLOR 1:A$=STRING$(3,"x"):X=INSTR(1,A$,"x"):HDRAW "U1"\n20 K$=INKEY$:IF INKEY$="" THEN 20\n30 J=JOYSTK(0):B=BUTTON(1):P=POINT(1,2):H$=HEX$(J):V=INT(J)+VAL(K$)\n40 DATA 1,,2\n50 READ D1,D2$:HCIRCLE(1,2),3,4:ON ERR GOTO 10\n'
 
 
 def confirmations():
@@ -293,6 +294,15 @@ def confirmations():
         ok = all(len(v) == 1 for v in bykind.values())
         res.append(ob("confirm/equal option values listed in another key order give the same text", ok, "1 distinct output per option set", {k: len(v) for k, v in bykind.items()} if not ok else "1 each over %d key orders" % (len(outs[next(iter(outs))])),
                       src, bounded="240 key orders of one six-entry mapping x initialize_vars"))
+        leaks = []
+        for name, src in {"hex DATA item next to an empty one": "10 DATA &H1F,,7,A\n20 READ A,B,C,D$\n30 DATA &HFF,&H10\n", "PROG_A": PROG_A, "PROG_B": PROG_B,
+                          "hex operands": "10 POKE &HFF22,&H80:A=&H7FFF:DIM B(&H10)\n"}.items():
+            for kw2 in (dict(), dict(initialize_vars=True, output_dependencies=True, procname="p")):
+                out = convert(src, **kw2)
+                m = re.search(r"<[\w.]+ object at 0x[0-9a-fA-F]+>|\bat 0x[0-9a-fA-F]{6,}", out)
+                if m:
+                    leaks.append("%s: %s" % (name, m.group(0)))
+        res.append(ob("confirm/no object identity (memory address) in the output", not leaks, "none", leaks[:3] or "none", bounded="4 programs x 2 option sets"))
         res.append(ob("confirm/A,B,A in one process", a1 == a2, "first and third outputs identical", "identical" if a1 == a2 else "%d vs %d bytes" % (len(a1), len(a2)), bounded="one sequence of conversions"))
         return res
     return guarded("confirm", run)
@@ -368,4 +378,4 @@ def decoders_functional():
 
 def obligations():
     from tx import p_c13
-    return order_typing() + persistent_state() + decoders_functional() + confirmations() + [dict(o, id="history/" + o["id"]) for o in p_c13.history()]
+    return order_typing() + persistent_state() + decoders_functional() + confirmations() + __import__("tx.p_c05", fromlist=["share"]).share("cli/", __import__("tx.p_c11", fromlist=["x"]).command_line()) + [dict(o, id="history/" + o["id"]) for o in p_c13.history()]
